@@ -468,7 +468,29 @@ func optNoFabrication(r *core.Run) {
 		ts = []spec.Triplet{{Tag: 2, Val: []byte{1}}}
 	}
 	tail := joinTriplets(ts)
-	switch c.Pick(4, 3, 2, 1) {
+	switch c.Pick(4, 3, 2, 1, 2) {
+	case 4:
+		// a peer that counts lengths in another way: EVERY length field is off by the same amount (the header
+		// counted in, a terminator counted in, one short); a second reading of the octets must not be invented
+		bias := []int{4, 2, 1, -1, 8}[c.Intn(5)]
+		if len(ts) < 2 {
+			ts = append(ts, spec.Triplet{Tag: uint16(1 + c.Intn(18)), Val: c.Blob(1+c.Intn(4), "any")})
+		}
+		if c.Bool() {
+			for i := range ts {
+				ts[i].Tag = uint16(1 + (int(ts[i].Tag)+i)%18) // tags the SMGP specification defines
+				if len(ts[i].Val) > 40 {
+					ts[i].Val = ts[i].Val[:40]
+				}
+			}
+		}
+		tail = nil
+		for _, t := range ts {
+			tail = binary.BigEndian.AppendUint16(tail, t.Tag)
+			tail = binary.BigEndian.AppendUint16(tail, uint16(max(0, len(t.Val)+bias)))
+			tail = append(tail, t.Val...)
+		}
+		r.Fault("biased_lengths")
 	case 0:
 		t := c.Intn(len(tail))
 		tail = tail[:t]
